@@ -844,6 +844,9 @@ func (e *engine) all() error {
 	if err := e.eval(f2Probe()); err != nil {
 		return err
 	}
+	if err := e.eval(heldProbe()); err != nil {
+		return err
+	}
 	rep.FindingsProbed[f2Key] = rep.Distribution["ORACLE-FAIL:"+f2Key] > before
 
 	r := common.NewRng(o.Seed)
@@ -1023,7 +1026,7 @@ func main() {
 	rep := common.NewReport("C03", o)
 	rep.Engines = []string{"replay", "race", "pool", "ts", "flood", "poolrace"}
 	rep.Rule = "replay: histories (<= ~45 ops) of clock advances and presentations of crafted/real/mutated SS2022 TCP requests to a real StreamServer on a synctest fake clock; " +
-		"templates: end-of-validity replays (skew -31..+31 s, instants within 0/1/2 ns and 1 s of the last valid instant), retention edges (t1 + 59/60/61/62 s +-2 ns after a pruning Add), forged-copies-first, random walks over a boundary step alphabet; " +
+		"templates: end-of-validity replays (skew -31..+31 s, instants within 0/1/2 ns and 1 s of the last valid instant), retention edges (t1 + 59/60/61/62 s +-2 ns after a pruning Add), forged-copies-first, held connections (an idle connection handed to the server at instant a, the request written at b >= a, b-a in 0..70 s around 30/31/60/61 s, other traffic in between; the verdict is judged at b), random walks over a boundary step alphabet; " +
 		"non-trivial = at least one accept and at least one re-presentation of an accepted request; distinct by (config, op list). " +
 		"race: k in {2,3,4,8,16} concurrent copies + 0..6 unrelated concurrent requests. pool: <= 40 SaltPool ops with non-monotone instants, plus floods: Add(r), N distinct fresh salts (N in 2^10, 2^16-1, 2^16, 2^16+1, 2^17, 3*10^5) inside r's validity span, Add(r) again (model compared answer by answer; fills of more than 2048 salts as one bulk op on the driver's proved-equivalent fast pool). poolrace (child process): k in {2,4,16} goroutines call SaltPool.Add for the same fresh salt 50000 / 10^6 rounds each, re-aligned by a blocking barrier every 32 rounds; the race engine itself also runs in a child process so that a fatal runtime error (concurrent map access) is reported as a failure of that scenario. flood: the same through HandleStream with 2048 (quick) / 70000 (thorough, search) real handshakes on the fake clock. ts: 64 (word, clock) pairs per case over 64-bit boundary alphabets"
 	code := 0
